@@ -8,6 +8,8 @@ import (
 	"github.com/apache/skywalking-banyandb/pkg/zzverif"
 )
 
+func c10MakeMap[K comparable, V any](m *map[K]V) { *m = make(map[K]V) }
+
 //verif:harness prop=C10,C15,C17 tier=quick,thorough reach=folded paths=200000
 // Coordinator-side reduction of the nodes' partial aggregates counts every (shard, group) once:
 // a partial is recognised as a replica's duplicate exactly when a partial of the same shard for
@@ -18,7 +20,8 @@ func VerifH_C10_ReplicaPartialsAreFoldedOncePerShardAndGroup() {
 	n := 2 + zzverif.Choice("partials", 3)
 	schema := vectorized.NewBatchSchema([]vectorized.ColumnDef{{Name: "shard", Role: vectorized.RoleShardID, Type: vectorized.ColumnTypeInt64}})
 	b := vectorized.NewRecordBatch(schema, n)
-	a := &BatchAggregation{shardIDIdx: 0, dedupSeen: map[string]struct{}{}}
+	a := &BatchAggregation{shardIDIdx: 0}
+	c10MakeMap(&a.dedupSeen) // as Init does for the reduce mode, whatever the map's value type
 	type pr struct {
 		shard int64
 		group string
